@@ -75,7 +75,7 @@ def _run_own(ctx, chk):
         d = to_string_of(b60d)
         chk.require(p is not None and (p == ("const", PREFIX) or p == ("const", "AC")), "C08-b/wiring", inst + ".tlv.bmp_data.bmp_prefix",
                     "BMP60 prefix is %s, expected the constant 'AC'" % (show(b60p) if b60p else None), "'AC'", sp)
-        chk.require(d is not None and d[0] == "path" and d[1] == "token" and not d[2], "C08-b/wiring", inst + ".tlv.bmp_data.bmp_data",
+        chk.require(d is not None and d[0] == "path" and d[1] == f.param(2) and not d[2], "C08-b/wiring", inst + ".tlv.bmp_data.bmp_data",
                     "BMP60 reference is %s, expected the caller's token" % (show(b60d) if b60d else None), "token", sp)
 
     def wired(f, req, agg, field, pred, what, inst, sp):
@@ -125,8 +125,8 @@ def _run_own(ctx, chk):
                         "minuend is %s, expected the configured pre-authorisation amount" % show(a)[:100],
                         "config.pre_authorization_amount", sp)
             b2 = strip_ref(b)
-            is_cast = b2[0] == "cast" and strip_ref(b2[1])[0] == "path" and strip_ref(b2[1])[1] == "amount" and b2[2] == "usize"
-            plain = b2[0] == "path" and b2[1] == "amount"
+            is_cast = b2[0] == "cast" and strip_ref(b2[1])[0] == "path" and strip_ref(b2[1])[1] == f.param(3) and b2[2] == "usize"
+            plain = b2[0] == "path" and b2[1] == f.param(3)
             chk.require(is_cast or plain, "C08-a/subtrahend", "PartialReversal.amount",
                         "subtrahend is %s, expected the final amount argument" % show(b)[:100], "amount as usize", sp)
             chk.require(ptr == 64, "C08-a/cast-lossless", "amount as usize",
